@@ -3,7 +3,6 @@
 From V.model Require Import Base RelLex RelParse RelAcc RelGrammar RelGrammarAll.
 From V.proofs Require Import BaseP RelLexP RelParseP RelGrammarLexP RelGrammarParseP RelGrammarAccP RelLexInvP
   RelGrammarAllParseP RelGrammarAllInvP.
-Set Default Timeout 60.
 
 (* ---- searching among the children of a liberal relation tree ---- *)
 Lemma fn_elems k w : first_node_of_kind k (elems w) = None.
